@@ -391,3 +391,68 @@ Proof.
               | |- context [match ?x with _ => _ end] => destruct x eqn:?; cbn
               end; intros H; try discriminate H; injection H as <-; auto.
 Qed.
+
+(* ---------------- C05, further registers ---------------- *)
+(* 'I s a f' acknowledged: EVERY board reads back source s, attenuation a, filter f *)
+Lemma tp_I_readback e d s a f :
+  acked (snd (exec e d (KI s a f))) = true ->
+  exists s', src_of_letter s = Some s' /\ 0 <= a < 16 /\ 1 <= f < 5 /\
+    forall i, (i < length (boards d))%nat ->
+      readback (fst (exec e d (KI s a f))) i =
+      Some ([SP] ++ src_name s' ++ [SP] ++ zstr a ++ [SP] ++ zstr (bandwidth f)).
+Proof.
+  cbn. unfold in_range. destruct (src_of_letter s) as [s'|]; cbn; [|discriminate].
+  destruct ((0 <=? a) && (a <? 16)) eqn:E1; cbn; [|discriminate].
+  destruct ((1 <=? f) && (f <? 5)) eqn:E2; cbn; [|discriminate].
+  intros _. exists s'. repeat split; try lia. intros i Hi. unfold readback, set_boards. cbn [boards].
+  revert i Hi. induction (boards d) as [|b l IH]; intros [|i] Hi; cbn in *; try lia; [reflexivity|].
+  apply IH. lia.
+Qed.
+
+(* the scalar registers shown by '?': sample period (S, X), calibration mark (N), the two periods (X) *)
+Definition scalars (d : dev) : Z * Z * Z * Z := (sample_period d, calOn d, calOnPeriod d, zeroPeriod d).
+Definition writes_scalars (c : cmd) : bool :=
+  match c with KS _ | KN _ | KX _ _ _ _ _ => true | _ => false end.
+
+Lemma tp_frame_scalars e d c : writes_scalars c = false -> scalars (fst (exec e d c)) = scalars d.
+Proof.
+  intros Hw. destruct c; try discriminate Hw; cbn;
+    repeat match goal with
+           | |- context [match ?x with _ => _ end] => destruct x eqn:?; cbn
+           end; reflexivity.
+Qed.
+
+Lemma tp_scalars_stable e : forall cs d,
+  Forall (fun c => writes_scalars c = false) cs -> scalars (exec_all e d cs) = scalars d.
+Proof.
+  induction cs as [|c cs IH]; intros d H; cbn [exec_all]; [reflexivity|].
+  inversion H as [|? ? Hc Hcs]; subst. rewrite IH by exact Hcs. apply tp_frame_scalars. exact Hc.
+Qed.
+
+(* S v (always acknowledged), then any commands other than S / N / X: '?' still prints v *)
+Lemma tp_S_until e d v cs : Forall (fun c => writes_scalars c = false) cs ->
+  sample_period (exec_all e (fst (exec e d (KS [v]))) cs) = v.
+Proof.
+  intros H. pose proof (tp_scalars_stable e cs (fst (exec e d (KS [v]))) H) as E.
+  unfold scalars in E. injection E as E1 _ _ _. cbn in E1. cbn. exact E1.
+Qed.
+
+Lemma tp_N_until e d v cs : acked (snd (exec e d (KN [v]))) = true ->
+  Forall (fun c => writes_scalars c = false) cs ->
+  calOn (exec_all e (fst (exec e d (KN [v]))) cs) = v.
+Proof.
+  intros Ha H. pose proof (tp_scalars_stable e cs (fst (exec e d (KN [v]))) H) as E.
+  destruct (tp_N_readback e d v Ha) as [Hv _]. unfold scalars in E. injection E as _ E2 _ _. etransitivity; [exact E2|exact Hv].
+Qed.
+
+(* where the status reply prints them *)
+Lemma tp_status_shows_scalars e d :
+  exists head tail, snd (exec e d KStatus) =
+    OReply (head ++ zstr (sample_period d) ++ [SP] ++ zstr (calOnPeriod d) ++ [SP] ++ zstr (zeroPeriod d) ++ tail)
+    /\ (exists t, head = t ++ status_ascii d ++ [SP]).
+Proof.
+  cbn. unfold status_reply. destruct (tm e (ntm d)) as [[t0 t1] t2].
+  eexists (zstr t0 ++ [SP] ++ zstr t1 ++ [SP] ++ zstr t2 ++ [SP] ++ status_ascii d ++ [SP]), _. split.
+  - repeat rewrite <- app_assoc. reflexivity.
+  - eexists (zstr t0 ++ [SP] ++ zstr t1 ++ [SP] ++ zstr t2 ++ [SP]). repeat rewrite <- app_assoc. reflexivity.
+Qed.
